@@ -43,7 +43,8 @@ MinSupported == Ver(<<0, 3, 0>>, Final)
 FaultOrder == << "deprecated_memory", "no_general", "no_instructions", "min_version_newer", "min_version_older", "origin_below_global",
                  "isa_version_not_semver", "register_keyword", "unknown_operand_type", "undeclared_register", "inverted_range",
                  "mnemonic_keyword", "mnemonic_keyword_upper", "missing_bytecode", "count_mismatch", "unknown_operand_set",
-                 "macro_keyword", "macro_same_as_instruction", "zone_inverted", "zone_beyond_width" >>
+                 "macro_keyword", "macro_same_as_instruction", "zone_inverted", "zone_beyond_width", "zone_end_is_space_size",
+                 "global_beyond_width" >>
 Faults == {FaultOrder[i] : i \in 1..Len(FaultOrder)}
 
 S(kind, shape, fault, v, iv, op, name) == [kind |-> kind, shape |-> shape, fault |-> fault, v |-> v, iv |-> iv, op |-> op, name |-> name]
